@@ -72,8 +72,7 @@ func (w *World) setResult(dst int, bm *roaring.Bitmap, m *model.Set32, regions [
 		if !w.panicked {
 			w.fail(w.curTag, "nil-result", "operation returned nil", fmt.Sprintf("%s returned a nil bitmap", w.curOp))
 		}
-		bm = roaring.New()
-		bm.AddMany(m.Slice())
+		bm = buildFromModel(m)
 	}
 	w.B[dst] = &Obj32{BM: bm, M: m, Regions: w.liveRegions(regions), Prov: prov}
 	w.X.dropCursorsOf(dst)
@@ -398,7 +397,7 @@ func init() {
 				return false
 			}
 			d := int64(st.A[0])
-			return d > -(1<<32) && d < 1<<32 && (st.A[1] == 0 || d >= 0)
+			return d > -(1<<32) && d < 1<<32 && (st.A[1] == 0 || d >= 0) && !w.giant(st.S[1])
 		},
 		exec: func(w *World, st *Step) {
 			src := w.B[st.S[1]]
